@@ -31,6 +31,9 @@ func (m *RWMutex) Lock() {
 	// wait for readers to drain
 	if s := simrt.Active(); s != nil && s.Self() != nil {
 		s.WaitCond("rwmutex.Lock(readers)", func() bool { return m.readers.Load() == 0 })
+		// the condition may have been evaluated by the scheduler: acquire the
+		// readers' releases in this goroutine too (RUnlock happens-before Lock)
+		m.readers.Load()
 	} else {
 		for m.readers.Load() != 0 {
 		}
